@@ -7,13 +7,13 @@ WT=$(mktemp -d /tmp/hmc-seed-XXXXXX)
 git -C /repo worktree add --detach -f "$WT" HEAD >/dev/null 2>&1 || { echo "worktree failed"; exit 2; }
 trap 'git -C /repo worktree remove --force "$WT" >/dev/null 2>&1; rm -rf "$WT"' EXIT
 echo "== demo WITHOUT patch (must pass)"
-( cd "$WT" && PYTHONPATH="$WT" timeout 600 /venv/bin/python "$S/demo.py" >/tmp/seed_demo_clean.log 2>&1 ); RC0=$?
-tail -3 /tmp/seed_demo_clean.log; echo "rc=$RC0"
+( cd "$WT" && PYTHONPATH="$WT" timeout 600 /venv/bin/python "$S/demo.py" >"$WT.clean.log" 2>&1 ); RC0=$?
+tail -3 "$WT.clean.log"; echo "rc=$RC0"
 git -C "$WT" apply "$S/patch.diff" || { echo "PATCH-DOES-NOT-APPLY"; exit 2; }
 echo "== repo tests WITH patch (must pass)"
 /verif/tools/repo_tests.sh "$WT" | tail -2; RT=${PIPESTATUS[0]}
 echo "== demo WITH patch (must fail)"
-( cd "$WT" && PYTHONPATH="$WT" timeout 600 /venv/bin/python "$S/demo.py" >/tmp/seed_demo_mut.log 2>&1 ); RC1=$?
-tail -3 /tmp/seed_demo_mut.log; echo "rc=$RC1"
-rm -f /tmp/seed_demo_clean.log /tmp/seed_demo_mut.log
+( cd "$WT" && PYTHONPATH="$WT" timeout 600 /venv/bin/python "$S/demo.py" >"$WT.mut.log" 2>&1 ); RC1=$?
+tail -3 "$WT.mut.log"; echo "rc=$RC1"
+rm -f "$WT.clean.log" "$WT.mut.log"
 if [ $RC0 -eq 0 ] && [ $RC1 -ne 0 ] && [ $RT -eq 0 ]; then echo "SEED-CONFIRMED"; exit 0; else echo "SEED-REJECTED (clean rc=$RC0 mutant rc=$RC1 tests rc=$RT)"; exit 1; fi
